@@ -1,8 +1,8 @@
-def pccRefine (shifts : Rat) (max_shifts : Rat) (upsample_factor : Int) (size : Int) : Int × Rat × Int × Int :=
+def pccRefine (shifts : Rat) (max_shifts' : Rat) (upsample_factor : Int) (size : Int) : Int × Rat × Int × Int :=
   let upsampled_region_size : Int := (Py.ceil (((upsample_factor : Int) : Rat) * ((3 : Rat) / 2)))
   let dftshift : Rat := (((Py.trunc (((upsampled_region_size : Int) : Rat) / (2 : Rat))) : Int) : Rat)
-  let lsh : Rat := ((shifts + max_shifts) * ((upsample_factor : Int) : Rat))
-  let rsh : Rat := ((max_shifts - shifts) * ((upsample_factor : Int) : Rat))
+  let lsh : Rat := ((shifts + max_shifts') * ((upsample_factor : Int) : Rat))
+  let rsh : Rat := ((max_shifts' - shifts) * ((upsample_factor : Int) : Rat))
   let center : Int := (Py.trunc dftshift)
   let start : Int := (Py.imax (center - (Py.trunc lsh)) (0 : Int))
   let stop : Int := (Py.imin ((center + (Py.trunc rsh)) + (1 : Int)) size)
